@@ -262,7 +262,9 @@ def vertex_ownership(repo: Repo) -> RuleRun:
     want = [f"V({corner_point(op, k)!r})" for k in range(8)]
     r.check(isinstance(res, list) and [repr(x) for x in res] == want, fn, "vertices created for corners 0..7 in order", f"Mesh._add_vertices returns {res}; expected the vertices of corners 0..7 in the operation's own order", fn.node, key="order")
 
-    asm = repo.func("mesh.Mesh.assemble")
+    from ..util import assemble_loop
+
+    asm = assemble_loop(repo)
     assigns = [n for n in walk_shallow(asm.node) if isinstance(n, ast.Assign) and isinstance(n.value, ast.Call) and attr_chain(n.value.func) == "self._add_vertices"]
     r.require(len(assigns) == 1 and isinstance(assigns[0].targets[0], ast.Name), "Mesh.assemble: 'vertices = self._add_vertices(operation)' not found")
     vname = assigns[0].targets[0].id
